@@ -278,6 +278,16 @@ def _resugar(n):
         try:
             e = n["e"]
             inner = e["args"][0] if e.get("k") == "call" else e
+            tf = strip(inner)
+            if tf.get("k") == "mcall" and tf.get("m") == "try_for_each" and (tf.get("def") or "").endswith("Iterator::try_for_each") and len(tf.get("args", [])) == 1:
+                # it.try_for_each(|x| body)?  ==  for x in it { body? }
+                clo = tf["args"][0]
+                while clo.get("k") == "block" and not clo.get("stmts") and clo.get("e") is not None:
+                    clo = clo["e"]
+                if clo.get("k") == "closure" and len(clo.get("params", [])) == 1 and not any(x.get("k") == "ret" for x in walk(clo["body"])):
+                    loop = {"k": "for", "pat": clo["params"][0], "iter": tf["recv"], "sp": tf.get("sp"), "ty": "()", "from_for_each": True,
+                            "body": {"k": "block", "stmts": [{"k": "semi", "e": {"k": "try", "e": clo["body"], "ty": "()", "sp": n.get("sp")}}], "ty": "()"}}
+                    return {"k": "block", "stmts": [{"k": "semi", "e": loop}], "ty": "()", "sp": n.get("sp")}
             return {"k": "try", "e": inner, "ty": n.get("ty"), "sp": n.get("sp")}
         except (KeyError, IndexError):
             return n
